@@ -153,7 +153,7 @@ func ruleTimerDequeueCoupled() check.Rule {
 	return check.Rule{
 		Name:        "TIMER-DEQUEUE-COUPLED",
 		FamilyShape: true,
-		Doc:         "in a function that runs as a timer callback (time.AfterFunc: several may run at once), drops the head of a queue while holding lock A and sends the removed notification to the destination after A has been released (Delay), the send is made under a second lock B that was acquired while A was still held (lock coupling): otherwise two callbacks can take elements 1 and 2 in order and deliver them as 2, 1",
+		Doc:         "in a function that runs as a timer callback (time.AfterFunc: several may run at once), drops the head of a queue while holding lock A and sends the removed notification to the destination after A has been released (Delay), the send is made under a second lock B that was acquired while A was still held (lock coupling): otherwise two callbacks can take elements 1 and 2 in order and deliver them as 2, 1; and the head is not taken in a loop (one timer releases one notification)",
 		Run: func(c *check.Ctx) {
 			m := c.M
 			h := newHeldDB(m)
@@ -190,8 +190,56 @@ func ruleTimerDequeueCoupled() check.Rule {
 						}
 						return true
 					})
+					// a timer callback that empties a queue wholesale releases everything that is pending at once
+					ast.Inspect(lit.Body, func(x ast.Node) bool {
+						as, ok := x.(*ast.AssignStmt)
+						if !ok || len(as.Lhs) != 1 || len(as.Rhs) != 1 {
+							return true
+						}
+						k := queueKey(info, as.Lhs[0])
+						if k == "" {
+							return true
+						}
+						// is it a queue of the operator (appended to somewhere in the subscribe closure)?
+						isQueue := false
+						ast.Inspect(sc.Lit.Body, func(y ast.Node) bool {
+							if a2, ok := y.(*ast.AssignStmt); ok && len(a2.Lhs) == 1 && len(a2.Rhs) == 1 && queueKey(info, a2.Lhs[0]) == k {
+								if call, ok := ast.Unparen(a2.Rhs[0]).(*ast.CallExpr); ok {
+									if id, ok := ast.Unparen(call.Fun).(*ast.Ident); ok && id.Name == "append" {
+										isQueue = true
+									}
+								}
+							}
+							return !isQueue
+						})
+						if !isQueue {
+							return true
+						}
+						switch r := ast.Unparen(as.Rhs[0]).(type) {
+						case *ast.SliceExpr:
+							_ = r
+						case *ast.CallExpr:
+							if id, ok := ast.Unparen(r.Fun).(*ast.Ident); ok && id.Name == "append" {
+								return true
+							}
+							n++
+							c.Report(armed, fmt.Sprintf("%s/timer-callback/one-per-timer", sc), as.Pos(), "the timer callback replaces the whole queue: a timer armed for one notification releases every notification that is pending, before their own delay has elapsed")
+						default:
+							n++
+							c.Report(armed, fmt.Sprintf("%s/timer-callback/one-per-timer", sc), as.Pos(), "the timer callback replaces the whole queue: a timer armed for one notification releases every notification that is pending, before their own delay has elapsed")
+						}
+						return true
+					})
 					if drop == nil {
 						continue
+					}
+					// one timer, one notification: the head is not taken in a loop
+					for cn := m.Parent(sc.Pkg, drop); cn != nil && cn != ast.Node(lit); cn = m.Parent(sc.Pkg, cn) {
+						switch cn.(type) {
+						case *ast.ForStmt, *ast.RangeStmt:
+							n++
+							c.Report(armed, fmt.Sprintf("%s/timer-callback/one-per-timer", sc), drop.Pos(), "the timer callback takes queued notifications in a loop: a timer armed for one notification also releases the ones queued after it, before their own delay has elapsed")
+						}
 					}
 					heldAtDrop := h.heldAt(sc.Pkg, drop)
 					res := h.resultOf(sc.Pkg, lit)
